@@ -886,10 +886,9 @@ def m_min(ip, st, fr, t, args, site, dest_ty):
 
 def m_slice_len(ip, st, fr, t, args, site, dest_ty):
     a = args[0]
-    if a is not None and a[0] == 'slice':
-        yield (a[4], st, 'ok', None)
-    elif a is not None and a[0] == 's':
-        yield (S(64, 'len(%s)' % a[2], ('len', a[2])), st, 'ok', None)
+    view = _as_view(ip, st, a)
+    if view is not None:
+        yield (view[3], st, 'ok', None)
     else:
         yield (st.fresh(64, 'len'), st, 'ok', None)
 
@@ -909,6 +908,8 @@ def _as_view(ip, st, a):
             return (a[1], a[2], C(64, 0), C(64, len(tgt[2])))
         if tgt is not None and tgt[0] in ('slice',):
             return (tgt[1], tgt[2], tgt[3], tgt[4])
+        if a[1][0] == 'O' and not a[2] and (tgt is None or tgt[0] in ('s', 'snap')):
+            return (a[1], a[2], C(64, 0), S(64, 'len(%s)' % a[1][1], ('len', a[1][1])))
     return None
 
 
@@ -921,6 +922,9 @@ def m_index(ip, st, fr, t, args, site, dest_ty):
         yield (st.fresh(0, 'index'), st, 'ok', None)
         return
     root, path, off, ln = view
+    if 'RangeFull' in t.get('generics', ''):
+        yield (('slice', root, path, off, ln), st, 'ok', None)
+        return
     if idx is not None and is_int(idx):
         # plain usize index -> &T ; bounds obligation
         yield from _bounds_fork(ip, st, site, O(1, 'ult', idx, ln), ('slice_index', idx, ln),
@@ -1176,6 +1180,10 @@ STD_MODELS = {
     'core::slice::index::<impl std::ops::Index<I> for [T]>::index': m_index,
     'core::slice::index::<impl std::ops::IndexMut<I> for [T]>::index_mut': m_index,
     'core::slice::<impl [T]>::copy_from_slice': m_copy_from_slice,
+    'core::array::<impl std::ops::Index<I> for [T; N]>::index': m_index,
+    'core::array::<impl std::ops::IndexMut<I> for [T; N]>::index_mut': m_index,
+    'std::array::<impl std::ops::Index<I> for [T; N]>::index': m_index,
+    'std::array::<impl std::ops::IndexMut<I> for [T; N]>::index_mut': m_index,
     '<I as std::iter::IntoIterator>::into_iter': m_identity,
     'std::iter::range::<impl std::iter::Iterator for std::ops::Range<A>>::next': m_range_next,
     'std::mem::replace': m_mem_replace,
